@@ -142,7 +142,7 @@ def rule_events_manual(cmd):
 
 def has_tcp(case):
     if case["mode"] == "manual":
-        return any(c[0].startswith("tcp_") for c in case["script"])
+        return any(c[0].startswith("tcp_") or c[0] == "pump_drop" for c in case["script"])
     return bool(case["cfg"].get("tcp"))
 
 
@@ -193,6 +193,16 @@ def to_model(case, obs):
             elif cmd[0] == "udp":
                 if o.get("r") == 8 and not tcp:
                     evs.append("FSend %d %s" % (cmd[1], pkt_coq(cmd[3], udp_desc(hosts[cmd[1]], cmd[2], cmd[3]))))
+            elif cmd[0] == "pump_drop":
+                ids = assign_ids(o.get("out", []), counter)
+                pk = [pkt_coq(a, d) for a, d in zip(ids, o.get("out", []))]
+                j = min(cmd[2], len(pk))
+                first = len(evs)
+                evs.append("FEvalIn [%s]" % "; ".join(pk[:j]))
+                if cmd[2] < len(pk):
+                    evs.append("FDropGuard %d" % cmd[1])
+                probes.append((first, "pumpd", (i, len(evs))))
+                evs.append("FEvalIn [%s]" % "; ".join(pk[j:]))
             elif cmd[0] == "pump":
                 probes.append((len(evs), "pump", i))
                 if tcp:
@@ -260,15 +270,20 @@ def compare(case, obs, model, probes):
             if idx >= len(model):
                 return "model produced too few outputs"
             m = model[idx]
-            o = obs["steps"][i]
+            o = obs["steps"][i[0] if kind == "pumpd" else i]
             if kind == "id":
                 if o.get("id") != m[1] or m[1] != case["script"][i][1]:
                     return "cmd %d: install returned RuleId %s, model %s, script key %s" % (i, o.get("id"), m[1], case["script"][i][1])
                 continue
             # pump
+            m5 = list(m[5])
+            if kind == "pumpd":
+                i, idx2 = i
+                o = obs["steps"][i]
+                m5 += list(model[idx2][5])
             out = o["out"]
             ids = assign_ids(out, counter)
-            m_evals = [list(x) for x in m[5]]
+            m_evals = [list(x) for x in m5]
             if [x[0] for x in m_evals] != ids:
                 return "cmd %d: egress_all handed out packets %s, model %s" % (i, ids, [x[0] for x in m_evals])
             if [list(v) for v in o["verdicts"]] != [[x[2], x[3]] for x in m_evals]:
@@ -603,6 +618,29 @@ def gen_coincide(rng, variant=None):
             s0[base].append(["udp", dst, tags.next()])
     return {"mode": "fixture", "cfg": {"hosts": hosts, "lo": False, "nsteps": nsteps, "tcp": []},
             "script": {"0": s0, "1": [], "2": s2}, "flavour": "coincide"}
+
+
+def gen_batch_drop(rng):
+    """a hand-written scheduler that drops a guard between two evaluate calls of ONE drain:
+    egress_all, evaluate j packets, drop the guard, evaluate the rest (no install in between).
+    The dropped rule must stop applying at once."""
+    hosts = [["10.0.0.1"], ["10.0.1.1"]]
+    tags = Tags()
+    script = []
+    nrules = rng.randrange(1, 4)
+    victim = rng.randrange(1, nrules + 1)
+    for k in range(1, nrules + 1):
+        v = rng.choice(["drop", ["deliver", 1500000], ["deliver", 0]]) if k == victim else rng.choice(["pass", "pass", "drop"])
+        script.append(["install", k, {"t": "const", "v": v}, rng.choice(["guard", "free"])])
+    n = rng.randrange(2, 7)
+    for _ in range(n):
+        h = rng.randrange(2)
+        script.append(["udp", h, hosts[1 - h][0], tags.next()])
+    script.append(["pump_drop", victim, rng.randrange(0, n)])
+    for _ in range(rng.randrange(1, 3)):
+        script.append(["udp", 0, "10.0.1.1", tags.next()])
+    script.append(["pump"])
+    return {"mode": "manual", "cfg": {"hosts": hosts, "perm": []}, "script": script, "flavour": "batch-drop"}
 
 
 def exhaustive_chains():
